@@ -77,6 +77,10 @@ CLAIMED['C02'] = dict(
     text='Reflection + meaning proof: the instruction table (476 instructions: template accessibility text of the bundled PDFs parsed by a fixed pattern set, plus 77 cited transcriptions of worksheets and NC forms) and the translated line programs are REGENERATED from the working tree on every run; for each (line, instruction) the Lean kernel checks (decide +kernel) that the program has the canonical arithmetic shape of the instruction up to operand order, comparison orientation and the ways of writing a floor at zero (matchesInstr), or that the code is outside the arithmetic fragment (covered = false, listed). For the certified fragment (carry/add/sub/floor/cap/smaller/larger/cond; 255 of 476) Spec.line_matches_instruction proves what a match MEANS: for all stores with cent-valued operands up to 1e13 cents the line evaluates (DSL evaluator + FloatField wrapper + binary64 arithmetic) to the double of exactly the cents the instruction yields; lifted to every state the solver returns (solved_line_is_what_the_form_says, via C03). PARTIAL: sum-comprehensions, rate multiplications, guards/declines and NC whole-dollar lines have the syntactic match only; every instruction is additionally applied in exact rational arithmetic to the values of real solutions (14 scenario kinds x 3 years).',
     note='Trusted: Lean kernel; the instruction table as entered (parser patterns + transcriptions with citations); translator + DSL evaluator + F64 model (validated by the real/dsl/f64 streams). 175 template sentences are unparsed and listed with reasons; 34 lines are uncovered by the matcher and decided by the oracle only.',
     technique='regenerated instruction table x regenerated programs: decide +kernel shape matching with a proved-sound meaning for the certified fragment; exact-arithmetic oracle on real solutions', ref='7/C02')
+CLAIMED['C08'] = dict(
+    text='Reflection proof against an independent table: tools/c08_statutory.json (68 statutory amounts x 3 years x 5 statuses, each with a citation: Rev. Proc. 2020-45/2021-45/2022-38, form instructions, NC D-401), mirrored as Spec/Statutory.lean, is compared IN THE LEAN KERNEL with the REGENERATED programs: for every (year, status, amount, site) - threshold-table entries through the model of Form.threshold, echo lines, gates (limit, limit +- a cent/dollar), coefficient lines, the NC child-deduction step table - the real translated line program is evaluated on a tiny typed store at the published bounds (721 obligations, 1,100 evaluations, decide +kernel, batched), with run_agrees proving that such an evaluation speaks for every solver state agreeing on the names read. A site survey over the IR classifies every numeric literal >= 100 and every rate as checked / ignored with reason / uncovered. Independently, one real solve per triple and bound observes the same behaviour end to end, and amounts printed in the bundled templates are compared with the table.',
+    note='Trusted: Lean kernel; the table as entered (5 amounts unverified and skipped, listed); site survey + reviewed site map; translator/evaluator (validated by the streams; every kernel evaluation is also compared with the real line function while generating). Known finding: the bundled ty2022/f8995.pdf is the 2021 revision (prints 2021 QBI thresholds).',
+    technique='independent published-amounts table x regenerated programs: decide +kernel evaluation at the bounds + real-solve oracle per triple', ref='7/C08')
 NOT_YET = {}
 ALL = [f'C{i:02d}' for i in range(1, 21)]
 
